@@ -220,3 +220,21 @@ def gen_dup_tree(r, n_classes=6, max_members=4, hostile_p=0.0, n_dirs=4, max_dep
                                 "flip": [], "mtime": mt})
                 classes.append({"fam": -1, "len": cls["len"], "flip": [], "members": [victim], "ws_twin": True})
     return {"entries": entries, "roots": root_names}, {"classes": classes}
+
+
+def rename_entry(spec, meta, old, new):
+    """Renames a file entry of a spec (relpath old -> new), keeping hard-link references and class lists in step."""
+    if any(e["p"] == new for e in spec["entries"]):
+        return False
+    for e in spec["entries"]:
+        if e["t"] == "h" and e.get("to") == old:
+            e["to"] = new
+        elif e["t"] == "l" and e.get("to") == "@ABS@/" + old:
+            e["to"] = "@ABS@/" + new
+        if e["p"] == old:
+            e["p"] = new
+    for c in (meta or {}).get("classes", []):
+        c["members"] = [new if m == old else m for m in c["members"]]
+        if "links" in c:
+            c["links"] = [(new if a == old else a, new if b == old else b) for a, b in c["links"]]
+    return True
